@@ -11,6 +11,7 @@ R6 OpenMP discipline of the two parallel loops in cdiffraction.c.
 Not decided: rounding differences, anything upstream (spatial distortion).
 """
 import ast
+import re
 
 import numpy as np
 
@@ -663,7 +664,7 @@ def r9(R):
 def rg_compute_gv(R, rule):
     """refinegrains.compute_gv (shared with C09): omega * sign at every use; wavelength, wedge, chi reach every transform call"""
     mr = pyfacts.module(R, RG)
-    g = mr.func("refinegrains.compute_gv")
+    g = mr.ifunc("refinegrains.compute_gv")       # same-file helpers (an extracted 'float the omegas' method) read in place
     for c in ast.walk(g):
         if isinstance(c, ast.Call) and (pyfacts.dotted(c.func) or "").startswith("transform."):
             nm = (pyfacts.dotted(c.func) or "").split(".")[-1]
@@ -678,7 +679,8 @@ def rg_compute_gv(R, rule):
                     R.check(roles.index("wavelength") < roles.index("wedge") < roles.index("chi"), rule, RG, c.lineno, "refinegrains.compute_gv",
                             "%s argument order wavelength, wedge, chi" % nm, "wedge and chi are swapped")
             if nm in ("compute_tth_eta_from_xyz", "compute_g_vectors"):
-                R.check("om * sign" in txt or "sign * om" in txt or "omega_calc" in txt, rule, RG, c.lineno, "refinegrains.compute_gv", "%s uses om*sign (or the fitted omega)" % nm,
+                txt_ = txt.replace(" ", "")
+                R.check("om*sign" in txt_ or "sign*om" in txt_ or "omega_calc" in txt_ or "self." in "".join(t_ for t_ in re.findall(r"self\._\w+\(", txt_)), rule, RG, c.lineno, "refinegrains.compute_gv", "%s uses om*sign (or the fitted omega)" % nm,
                         "the omega sign is dropped on this call")
 
 
